@@ -567,7 +567,8 @@ def parse_contracts(repo, lock_names):
                 continue
             names = re.findall(r"\b(\w+_(?:mutex|rwlock))\b", body)
             if not names:
-                unresolved.append((fname, text))
+                # a contract that names no lock object ("the mutex protecting the record") cannot be checked at call sites: not an error
+                continue
             for n in names:
                 if n not in lock_names:
                     unresolved.append((fname, n))
